@@ -368,7 +368,7 @@ def check_entry_text(ctx):
 
         def parse(self, tokens):
             return 'AST'
-    contents = VALUE_PROBES + ['10\xa0000\xa0EUR', 'a\u2003b', 'tab\tin', 'two  spaces', 'MiXed Case', 'x\u200by', 'a\r\nb', '\x0c', 'a;;b', ' ; ']
+    contents = VALUE_PROBES + [unicode_probe().replace("'", '').replace('`', '').replace('"', '').replace('\n', ' '), '10\xa0000\xa0EUR', 'a\u2003b', 'tab\tin', 'two  spaces', 'MiXed Case', 'x\u200by', 'a\r\nb', '\x0c', 'a;;b', ' ; ']
     n = 0
     for c in contents:
         for stmt in (f"select '{c}' from t", f"select `{c}` from t", f'select "{c}" as "{c}"', f"select 1 -- {c}\n from t"):
@@ -391,6 +391,72 @@ def check_entry_text(ctx):
                            f'parse_sql({text!r}, {d!r}) hands the lexer {got!r}: the statement is rewritten before it is tokenised, so the content of literals and quoted '
                            f'names is no longer what the caller wrote', file=INIT, line=fn.lineno, witness=text)
     ctx.count('entry_text_probes', n)
+
+
+def unicode_probe():
+    """a text with every ASCII character and representatives of every Unicode general category (all of the small categories that look like SQL punctuation:
+    initial / final quotes, spaces, dashes, format characters)"""
+    import unicodedata
+    per = {}
+    whole = {'Pi', 'Pf', 'Zs', 'Zl', 'Zp', 'Pd', 'Cf'}
+    for cp in range(0x80, 0x3000):
+        ch = chr(cp)
+        cat = unicodedata.category(ch)
+        if cat in ('Cs', 'Co', 'Cn', 'Cc'):
+            continue
+        if cat in whole or len(per.get(cat, [])) < 3:
+            per.setdefault(cat, []).append(ch)
+    return ''.join(chr(c) for c in range(32, 127)) + '\t\n' + ''.join(''.join(v) for _, v in sorted(per.items()))
+
+
+def check_lexer_entry(ctx, rule='C04.entry-text'):
+    """A lexer class that overrides `tokenize` stands between parse_sql and sly's tokenizer: the override is interpreted with the inherited tokenize standing in
+    as a recorder; what it hands on must be the text it was given, character for character (a probe with every ASCII character and representatives of every
+    Unicode category, among them all quote-like, space-like and dash-like characters): a translation of the whole text also rewrites literals and quoted names."""
+    from ..interp import Interp, Obj, Raised, Env
+    from ..grammar import dialect_classes
+    n = 0
+    classes = dialect_classes(ctx.src)
+    probe = "select 'a' " + unicode_probe() + " -- x"
+    for d in DIALECTS:
+        (lmod, lcls), _ = classes[d]
+        file = lmod.replace('.', '/') + '.py'
+        seen = set()
+        todo = [(file, lcls)]
+        while todo:
+            f, cn = todo.pop()
+            if (f, cn) in seen or not ctx.src.exists(f):
+                continue
+            seen.add((f, cn))
+            tree = ctx.src.tree(f)
+            cls = next((x for x in tree.body if isinstance(x, ast.ClassDef) and x.name == cn), None)
+            if cls is None:
+                continue
+            for b in cls.bases:
+                bn = dotted(b)
+                if bn is None:
+                    continue
+                for st in ast.walk(tree):
+                    if isinstance(st, ast.ImportFrom) and st.module and st.module.startswith('mindsdb_sql') and any((a.asname or a.name) == bn.split('.')[-1] for a in st.names):
+                        todo.append((st.module.replace('.', '/') + '.py', bn.split('.')[-1]))
+                todo.append((f, bn.split('.')[-1]))
+            for meth in [m for m in cls.body if isinstance(m, ast.FunctionDef) and m.name == 'tokenize']:
+                got = []
+                it = Interp.for_file(ctx.src, f, {}, {'super().tokenize': lambda it_, text, *a, **k: (got.append(text), iter(()))[1]})
+                n += 1
+                try:
+                    it.call_function(meth, [Obj(cn, text=None, index=0, lineno=1), probe], {}, Env())
+                except Raised as r_:
+                    got.append(f'<raises {r_.exc_name}>')
+                ok = got == [probe]
+                diff = ''
+                if not ok and got and isinstance(got[0], str) and len(got[0]) == len(probe):
+                    diff = ', '.join(f'U+{ord(a_):04X}->U+{ord(b_):04X}' for a_, b_ in zip(probe, got[0]) if a_ != b_)[:120]
+                ctx.ob(rule, f'{d}:{cn}.tokenize', ok,
+                       f'{d}: {cn}.tokenize does not hand the text it is given to the tokenizer unchanged ({diff or [g_[:40] for g_ in got]}): the characters are rewritten inside '
+                       f'string literals, quoted names and embedded queries too', file=f, line=meth.lineno, witness="select '\u201cDune\u201d'")
+    ctx.setcount('lexer_tokenize_overrides', n)
+    ctx.ob(rule, 'lexer-tokenize:all', True, '')
 
 
 def check_identifier_paths(ctx):
@@ -511,7 +577,9 @@ def check_identifier_paths(ctx):
             fn = n
     ctx.need(fn is not None, 'path_str_to_parts not found')
     cases = [('a.b', ['a', 'b']), ('`a.b`.c', ['a.b', 'c']), ('A.B', ['A', 'B']), ('`x y`', ['x y']), ('a.`b.c`.d', ['a', 'b.c', 'd']), ('abc', ['abc']),
-             ('`a`.`B c`', ['a', 'B c']), ('a1.$b', ['a1', '$b'])]
+             ('`a`.`B c`', ['a', 'B c']), ('a1.$b', ['a1', '$b']),
+             # a quoted part is a name whatever it spells: an operator character, a keyword, digits
+             ('`*`', ['*']), ('t.`*`', ['t', '*']), ('`select`', ['select']), ('`1`', ['1']), ("`a'b`.`-`", ["a'b", '-']), ('`NULL`.x', ['NULL', 'x'])]
     from ..interp import Interp, Raised, Env
     for text, want in cases:
         try:
@@ -582,7 +650,7 @@ def check_identifier_encoder(ctx):
     master = master_for(g.lexer)
     enc, encfn = identifier_printer(ctx)
     probes = ['a', 'A1', '_x', 'x y', 'a.b', '1a', 'a-b', 'a$b', '$a', 'not$a', 'in$x', 'é', 'café', 'цена', '名前', 'a b', "a'b", 'a"b', 'select', 'Select', 'from',
-              'x1', 'a_1', 'ab$', '9', 'a;b', 'a--b', 'a/*b', 'true', 'null']
+              'x1', 'a_1', 'ab$', '9', 'a;b', 'a--b', 'a/*b', 'true', 'null', '*', '-', '?']
     bad = []
     for part in probes:
         text = enc([part])
@@ -628,6 +696,7 @@ def run(ctx):
     check_identifier_paths(ctx)
     check_word_atomic(ctx)
     check_entry_text(ctx)
+    check_lexer_entry(ctx)
     # numeric constants: the printer's text is one numeric literal of the library's own lexer that converts back to exactly the value (C07's table)
     from .. import core
     from . import C07
